@@ -168,6 +168,15 @@ func c05Forgeries(s gen.Signed, emit func(class, detail string, b []byte)) {
 				emit("offline-transplanted(from-another-identity)", "", f.Bytes())
 			}
 		}
+		// (ii-b) history: the base (whose library verification has just run in this process) lends its
+		// GENUINE offline block to a set of another identity, signed with the transient key
+		if v.Offline != nil {
+			f := v
+			f.Dest.Signing = gen.Key(v.Dest.SigType, 671).Pub
+			f.Sig = nil
+			f.Sig = sign(s.Signer, refmodel.StoreLS2, f.Bytes())
+			emit("genuine-offline-block-under-another-identity(after-verifying-the-genuine-set)", "", f.Bytes())
+		}
 		// (iii) valid offline block, transient type field rewritten to a same-length type
 		if v.Offline != nil && (v.Offline.TransType == 7 || v.Offline.TransType == 11) {
 			f := v
@@ -237,6 +246,13 @@ func c05Forgeries(s gen.Signed, emit func(class, detail string, b []byte)) {
 			f.Dest.Signing = attacker.Pub
 			emit("identity-key-swapped", "", f.Bytes())
 		}
+		if v.Offline != nil {
+			f = v
+			f.Dest.Signing = gen.Key(v.Dest.SigType, 671).Pub
+			f.Sig = nil
+			f.Sig = sign(s.Signer, refmodel.StoreMeta, f.Bytes())
+			emit("genuine-offline-block-under-another-identity(after-verifying-the-genuine-set)", "", f.Bytes())
+		}
 		{
 			o := refmodel.Offline{Expires: gen.OfflineExp, TransType: 7, TransKey: attackerT.Pub}
 			o.Sig = refmodel.Sign(otherID, o.SignedData())
@@ -286,6 +302,13 @@ func c05Forgeries(s gen.Signed, emit func(class, detail string, b []byte)) {
 			f = v
 			f.Blinded = attacker.Pub
 			emit("identity-key-swapped", "", f.Bytes())
+		}
+		if v.Offline != nil {
+			f = v
+			f.Blinded = gen.Key(v.SigType, 671).Pub
+			f.Sig = nil
+			f.Sig = sign(s.Signer, refmodel.StoreELS, f.Bytes())
+			emit("genuine-offline-block-under-another-identity(after-verifying-the-genuine-set)", "", f.Bytes())
 		}
 	case refmodel.RouterInfo:
 		f := v
@@ -370,7 +393,7 @@ func c05One(r *core.Run, worker int, s gen.Signed, aux int, desc string, devs in
 }
 
 func runC05(r *core.Run) {
-	r.Rule = "signed bases from the generators (RouterInfo, LeaseSet, LeaseSet2, MetaLeaseSet, EncryptedLeaseSet, OfflineSignature) within 2 variations (thorough 3), signed by the reference model with standard-library keys of every verifiable type (Ed25519, RedDSA, DSA, P-256, P-384, Ed25519ph transient); for every base the forgery constructions (attacker transient key with zero/garbage authorisation, transplanted offline block, rewritten transient type, signed by another key, swapped identity key, wrong store-type prefix) and, for bases within 1 variation, the complete structure-aware operator menu and a bit flip in every byte (thorough: all 8 bits). Oracle: library verification success => VerifyRaw(received bytes) (identity key, exact bytes, prescribed prefix, authorised transient key). non-trivial = distinct inputs on which the library reported success and the oracle was evaluated"
+	r.Rule = "signed bases from the generators (RouterInfo, LeaseSet, LeaseSet2, MetaLeaseSet, EncryptedLeaseSet, OfflineSignature) within 2 variations (thorough 3), signed by the reference model with standard-library keys of every verifiable type (Ed25519, RedDSA, DSA, P-256, P-384, Ed25519ph transient); for every base the forgery constructions (attacker transient key with zero/garbage authorisation, transplanted offline block - also the GENUINE block of a set verified just before in the same process, under another identity (verdicts must not depend on history) -, rewritten transient type, signed by another key, swapped identity key, wrong store-type prefix) and, for bases within 1 variation, the complete structure-aware operator menu and a bit flip in every byte (thorough: all 8 bits). Oracle: library verification success => VerifyRaw(received bytes) (identity key, exact bytes, prescribed prefix, authorised transient key). non-trivial = distinct inputs on which the library reported success and the oracle was evaluated"
 	r.Assume("unforgeability of Ed25519/ECDSA/DSA (the check decides the verification logic: which key, which bytes, which prefix, which preconditions)",
 		"VerifyRaw never parses the middle of a structure: identity at the front, offline block at its fixed place, signature = last siglen bytes")
 	bound := 2
